@@ -214,7 +214,7 @@ type (
 	}
 )
 
-func (b *ReqBody) Timestamp() uint64            { return b.Ts }
+func (b *ReqBody) Timestamp() uint64            { return b.Ts + uint64(curOrigin) } // absolute for the library
 func (b *ReqBody) Nonce() uint64                { return b.NonceV }
 func (b *ReqBody) TransactionHashes() []H       { return b.Txs }
 func (b *RespBody) PreparationHash() H          { return b.PH }
@@ -222,7 +222,7 @@ func (b *CVBody) NewViewNumber() byte           { return b.NV }
 func (b *CVBody) Reason() dbft.ChangeViewReason { return b.Rsn }
 func (b *CommitBody) Signature() []byte         { return b.Sig }
 func (b *PreCommitBody) Data() []byte           { return b.D }
-func (b *RReqBody) Timestamp() uint64           { return b.Ts }
+func (b *RReqBody) Timestamp() uint64           { return b.Ts + uint64(curOrigin) }
 
 // Payload implements dbft.ConsensusPayload[H].
 type Payload struct {
